@@ -58,6 +58,7 @@ def gen_cfg(rng, tier: str, big: bool = False, kind: str | None = None) -> dict:
         nsectors = max(1, ngt * cover - rng.choice([0, 0, rng.randrange(cover)]))
         cfg.update(grain=grain, gtes=4096, nsectors=nsectors, zero_gte=False, sparse_gts=huge or rng.random() < 0.5)
         cfg["far"] = rng.choice(["data31", "datatop", "gt31", "all31"]) if (big and rng.random() < 0.7) or rng.random() < 0.1 else False
+        cfg["stale_nfg"] = rng.choice([0, 0, 1, 2])
     elif kind == "sesparse":
         grain = 8
         gt_sectors = 64
@@ -371,7 +372,10 @@ def _render_cowd(cfg, layer, view, name) -> Image:
         f.write(gt_pos[t] * 512, struct.pack("<4096I", *tbl))
     f.write(gd_off * 512, struct.pack("<%dI" % ngt, *[gt_pos.get(t, 0) for t in range(ngt)]))
     end = data + nslots * grain
-    hdr = struct.pack("<4sIIIIIII", b"COWD", 1, 3, cap, grain, gd_off, ngt, end)
+    # next_free_grain is writer bookkeeping: some writers (QEMU) never update it after creation, a host that went down before the
+    # header was flushed leaves it behind the real end. Readers address grains through the tables alone.
+    nfg = end if not cfg.get("stale_nfg") else (data if cfg["stale_nfg"] == 1 else data + (nslots // 2) * grain)
+    hdr = struct.pack("<4sIIIIIII", b"COWD", 1, 3, cap, grain, gd_off, ngt, nfg)
     f.write(0, hdr.ljust(2048, b"\0"))
     for n, off, k in [("magic", 0, "magic"), ("version", 4, "version"), ("flags", 8, "flags"), ("capacity", 12, "size"),
                       ("grain_size", 16, "size"), ("primary_grain_directory_offset", 20, "offset"),
